@@ -156,9 +156,10 @@ end
 def Settled (t : LSt) : Prop := Spec.collectStep t = none
 
 theorem Settled.congr {t t' : LSt} (h : Settled t) (h1 : t'.ownedT = t.ownedT) (h2 : t'.ownedK = t.ownedK)
+    (h2' : t'.ownedG = t.ownedG)
     (h3 : ∀ o, Spec.heldT t' o = Spec.heldT t o) (h4 : ∀ o, Spec.heldK t' o = Spec.heldK t o) : Settled t' := by
   unfold Settled Spec.collectStep at h ⊢
-  simp only [h1, h2, h3, h4]
+  simp only [h1, h2, h2', h3, h4]
   cases hx : t.ownedT.find? (fun o => !Spec.heldT t o) with
   | some o => rw [hx] at h; simp at h
   | none =>
@@ -166,7 +167,12 @@ theorem Settled.congr {t t' : LSt} (h : Settled t) (h1 : t'.ownedT = t.ownedT) (
     simp only at h ⊢
     cases hy : t.ownedK.find? (fun p => !Spec.heldK t p.1) with
     | some p => rw [hy] at h; obtain ⟨k, p⟩ := p; simp at h
-    | none => rfl
+    | none =>
+      rw [hy] at h
+      simp only at h ⊢
+      cases hz : t.ownedG.find? (fun p => !Spec.heldK t p.1) with
+      | some p => rw [hz] at h; obtain ⟨k, g⟩ := p; simp at h
+      | none => rfl
 
 theorem collectN_of_settled {t : LSt} (h : Settled t) (n : Nat) : Spec.collectN n t = t := by
   cases n with
@@ -183,6 +189,73 @@ theorem removeCell_owned (s : LSt) (cid : Nat) :
     cases aget s.sigs i with
     | none => exact ⟨rfl, rfl⟩
     | some g => exact ⟨rfl, rfl⟩
+
+theorem removeCell_ownedG (s : LSt) (cid : Nat) : (removeCell s cid).ownedG = s.ownedG := by
+  unfold removeCell
+  cases findSig s.sigs cid with
+  | none => rfl
+  | some i =>
+    simp only
+    cases aget s.sigs i with
+    | none => rfl
+    | some g => rfl
+
+theorem gcSig_owned (s : LSt) (i : Nat) :
+    (gcSig s i).ownedT = s.ownedT ∧ (gcSig s i).ownedK = s.ownedK ∧ (gcSig s i).ownedG = s.ownedG := by
+  unfold gcSig
+  cases aget s.sigs i with
+  | none => exact ⟨rfl, rfl, rfl⟩
+  | some g =>
+    simp only
+    split
+    · exact ⟨rfl, rfl, rfl⟩
+    · exact ⟨rfl, rfl, rfl⟩
+
+theorem dropHandle_owned (s : LSt) (g : Nat) :
+    (Spec.dropHandle s g).ownedT = s.ownedT ∧ (Spec.dropHandle s g).ownedK = s.ownedK ∧
+      (Spec.dropHandle s g).ownedG = s.ownedG := by
+  unfold Spec.dropHandle
+  cases aget s.G g with
+  | none => exact ⟨rfl, rfl, rfl⟩
+  | some h =>
+    simp only
+    have e : ∀ s1 : LSt, s1.ownedT = s.ownedT ∧ s1.ownedK = s.ownedK ∧ s1.ownedG = s.ownedG →
+        (match h.impl with
+          | some im => gcSig { s1 with G := adel s1.G g } im
+          | none => { s1 with G := adel s1.G g }).ownedT = s.ownedT ∧
+        (match h.impl with
+          | some im => gcSig { s1 with G := adel s1.G g } im
+          | none => { s1 with G := adel s1.G g }).ownedK = s.ownedK ∧
+        (match h.impl with
+          | some im => gcSig { s1 with G := adel s1.G g } im
+          | none => { s1 with G := adel s1.G g }).ownedG = s.ownedG := by
+      intro s1 hs1
+      cases h.impl with
+      | none => exact hs1
+      | some im =>
+        simp only
+        have := gcSig_owned { s1 with G := adel s1.G g } im
+        exact ⟨this.1.trans hs1.1, this.2.1.trans hs1.2.1, this.2.2.trans hs1.2.2⟩
+    apply e
+    split
+    · exact ⟨rfl, rfl, rfl⟩
+    · exact ⟨rfl, rfl, rfl⟩
+
+theorem filter_keyG_length_lt {l : List (Nat × Nat)} {p : Nat × Nat} (h : p ∈ l) :
+    (l.filter (fun q => q.1 ≠ p.1)).length < l.length := by
+  induction l with
+  | nil => simp at h
+  | cons b tl ih =>
+    simp only [List.filter_cons]
+    by_cases e : b.1 = p.1
+    · simp only [ne_eq, e, not_true_eq_false, decide_false, Bool.false_eq_true, if_false, List.length_cons]
+      exact Nat.lt_succ_of_le (List.length_filter_le _ _)
+    · have : p ∈ tl := by
+        rcases List.mem_cons.mp h with h | h
+        · subst h; exact absurd rfl e
+        · exact h
+      simp only [ne_eq, e, not_false_eq_true, decide_true, if_true, List.length_cons]
+      exact Nat.succ_lt_succ (ih this)
 
 theorem filter_ne_length_lt {α : Type} [DecidableEq α] {l : List α} {a : α} (h : a ∈ l) :
     (l.filter (· ≠ a)).length < l.length := by
@@ -218,7 +291,8 @@ theorem filter_key_length_lt {l : List (Nat × Option Nat)} {p : Nat × Option N
       exact Nat.succ_lt_succ (ih this)
 
 theorem collectStep_decreases {s s' : LSt} (h : Spec.collectStep s = some s') :
-    s'.ownedT.length + s'.ownedK.length < s.ownedT.length + s.ownedK.length := by
+    s'.ownedT.length + s'.ownedK.length + s'.ownedG.length
+      < s.ownedT.length + s.ownedK.length + s.ownedG.length := by
   unfold Spec.collectStep at h
   cases hx : s.ownedT.find? (fun o => !Spec.heldT s o) with
   | some o =>
@@ -227,13 +301,28 @@ theorem collectStep_decreases {s s' : LSt} (h : Spec.collectStep s = some s') :
     subst h
     have hm := List.mem_of_find?_eq_some hx
     have := filter_ne_length_lt hm
-    show (List.filter (fun x => decide (x ≠ o)) s.ownedT).length + s.ownedK.length < _
+    show (List.filter (fun x => decide (x ≠ o)) s.ownedT).length + s.ownedK.length + s.ownedG.length < _
     omega
   | none =>
     rw [hx] at h
     simp only at h
     cases hy : s.ownedK.find? (fun p => !Spec.heldK s p.1) with
-    | none => rw [hy] at h; simp at h
+    | none =>
+      rw [hy] at h
+      simp only at h
+      cases hz : s.ownedG.find? (fun p => !Spec.heldK s p.1) with
+      | none => rw [hz] at h; simp at h
+      | some p =>
+        rw [hz] at h
+        obtain ⟨k, g⟩ := p
+        simp only [Option.some.injEq] at h
+        have hm := List.mem_of_find?_eq_some hz
+        have := filter_keyG_length_lt hm
+        simp only at this
+        subst h
+        obtain ⟨e1, e2, e3⟩ := dropHandle_owned { s with ownedG := s.ownedG.filter (fun q => q.1 ≠ k) } g
+        rw [e1, e2, e3]
+        simp only; omega
     | some p =>
       rw [hy] at h
       obtain ⟨k, p⟩ := p
@@ -246,17 +335,19 @@ theorem collectStep_decreases {s s' : LSt} (h : Spec.collectStep s = some s') :
       | none => simp only; omega
       | some cid =>
         simp only
-        rw [(removeCell_owned _ cid).1, (removeCell_owned _ cid).2]
+        rw [(removeCell_owned _ cid).1, (removeCell_owned _ cid).2, removeCell_ownedG]
         simp only; omega
 
-theorem collectN_settled (n : Nat) : ∀ (s : LSt), s.ownedT.length + s.ownedK.length ≤ n → Settled (Spec.collectN n s) := by
+theorem collectN_settled (n : Nat) : ∀ (s : LSt), s.ownedT.length + s.ownedK.length + s.ownedG.length ≤ n →
+    Settled (Spec.collectN n s) := by
   induction n with
   | zero =>
     intro s h
     have h1 : s.ownedT = [] := List.length_eq_zero_iff.mp (by omega)
     have h2 : s.ownedK = [] := List.length_eq_zero_iff.mp (by omega)
+    have h3 : s.ownedG = [] := List.length_eq_zero_iff.mp (by omega)
     unfold Spec.collectN Settled Spec.collectStep
-    simp [h1, h2]
+    simp [h1, h2, h3]
   | succ n ih =>
     intro s h
     unfold Spec.collectN
